@@ -65,6 +65,8 @@ type Features struct {
 	DDL, Merge, QuotedDDLNames, IndexNulls bool
 	// DDLExtras: MERGE with a sub-query source, views over WITH queries, schema-qualified REFERENCES, NULLS FIRST on index columns
 	DDLExtras bool
+	// Alter: ALTER TABLE with one operation; AlterQualified: on a schema-qualified table
+	Alter, AlterQualified bool
 	// Flat: no nested query anywhere and no statement-starting keyword after the
 	// first token (SELECT/INSERT ... VALUES/DELETE only): the sub-grammar C12 quantifies over
 	Flat bool
@@ -78,6 +80,7 @@ func AllFeatures() Features {
 func FullFeatures() Features {
 	f := AllFeatures()
 	f.DDL, f.Merge, f.QuotedDDLNames, f.IndexNulls, f.DDLExtras = true, true, true, true, true
+	f.Alter, f.AlterQualified = true, true
 	return f
 }
 
